@@ -14,7 +14,7 @@ pub fn prop() -> Prop {
     Prop {
         id: "C01",
         level: "exploration",
-        rule: "per decoder (AdcPacket/AdcV3Packet, Chunk, PwbPacket/PwbV2Packet from bytes and from Vec<Chunk>, TrgPacket/TrgV3Packet, chronobox_fifo, all *BankName/BoardId string parsers, all id conversions): (i) random bytes in boundary length classes up to 65 564 bytes; (ii) valid packets with one field at {0,1,2,3,mid,max-2,max-1,max} with CRC/baseline re-fixed and not re-fixed; (iii) every single-byte overwrite with 8 values, every single-bit flip, every truncation and extension by 1..8 bytes of seed packets; (iv) chunk lists: subsets, duplicates, permutations, >65536 chunks with repeated ids; (v) FIFO streams; (vi) all 128^4 ASCII names (checked profile too) + random UTF-8; (vii) id conversions exhaustively. Every call runs under catch_unwind in a release and an overflow-checked build; on Ok every accessor and Display is exercised. Non-trivial = distinct inputs (hash) that got past the length check of their decoder. Added after the seeded-change rounds: slices of 65 552..65 568 and 131 108 bytes, maximum-size chunks (payload 65 524..65 535) with consistent CRCs and appended zero words, ADC packets of 32 767..70 000 samples, chunk lists whose final chunk is longer than the others, every arrangement of multi-byte characters in a 4-byte string. Round 4: every header offset x width 1/2/4 of a TRG / ADC / chunk / PWB seed set to every integer literal found in the library sources (read from the tree under test) or a boundary value, alone and jointly with every single-bit flip and every byte forced to 00/FF elsewhere in the header. Round 6: two or three chunks of a list carrying the same extreme id (0xFFFF, 0xFFFE, 0x7FFF, 0x8000, 0).",
+        rule: "per decoder (AdcPacket/AdcV3Packet, Chunk, PwbPacket/PwbV2Packet from bytes and from Vec<Chunk>, TrgPacket/TrgV3Packet, chronobox_fifo, all *BankName/BoardId string parsers, all id conversions): (i) random bytes in boundary length classes up to 65 564 bytes; (ii) valid packets with one field at {0,1,2,3,mid,max-2,max-1,max} with CRC/baseline re-fixed and not re-fixed; (iii) every single-byte overwrite with 8 values, every single-bit flip, every truncation and extension by 1..8 bytes of seed packets; (iv) chunk lists: subsets, duplicates, permutations, >65536 chunks with repeated ids; (v) FIFO streams; (vi) all 128^4 ASCII names (checked profile too) + random UTF-8; (vii) id conversions exhaustively. Every call runs under catch_unwind in a release and an overflow-checked build; on Ok every accessor and Display is exercised. Non-trivial = distinct inputs (hash) that got past the length check of their decoder. Added after the seeded-change rounds: slices of 65 552..65 568 and 131 108 bytes, maximum-size chunks (payload 65 524..65 535) with consistent CRCs and appended zero words, ADC packets of 32 767..70 000 samples, chunk lists whose final chunk is longer than the others, every arrangement of multi-byte characters in a 4-byte string. Round 4: every header offset x width 1/2/4 of a TRG / ADC / chunk / PWB seed set to every integer literal found in the library sources (read from the tree under test) or a boundary value, alone and jointly with every single-bit flip and every byte forced to 00/FF elsewhere in the header. Round 6: two or three chunks of a list carrying the same extreme id (0xFFFF, 0xFFFE, 0x7FFF, 0x8000, 0). Round 8: well-formed chunk lists whose payloads add up to more than the largest PWB packet (81 268 bytes).",
         assumptions: &["rustc overflow checks and debug assertions (profile `checked`) trap arithmetic overflow; aborts and stalls are caught by the child-shard driver and the CPU-time watchdog"],
         profiles: both,
         shards: shards16,
